@@ -135,6 +135,9 @@ var (
 )
 
 func getTimezone(offset int) *time.Location {
+	if verifOn {
+		simYield("tzcache")
+	}
 	tzLock.Lock()
 	defer tzLock.Unlock()
 	tz, ok := tzMap[offset]
